@@ -773,9 +773,13 @@ impl Prop for C16 {
         }
         // oracle (b2): identical across schedules
         let firm: Vec<usize> = (0..outs.len()).filter(|k| !outs[*k].refused_loudly).collect();
+        // (with an alternating CPU count AND a second caller, which of the two callers is told which count
+        // depends on who asks first: on inexact data the first result may then legitimately differ by
+        // reassociation from schedule to schedule; exact data still may not)
+        let counts_depend_on_schedule = case.cpu_flip.is_some() && case.concurrent && case.kind != Kind::Exact;
         for &k in firm.iter().skip(1) {
             let k0 = firm[0];
-            if canon(outs[k].r1) != canon(outs[k0].r1) {
+            if canon(outs[k].r1) != canon(outs[k0].r1) && !counts_depend_on_schedule {
                 return violation(
                     "schedule-dependence",
                     "dot_f64:across-schedules",
